@@ -869,7 +869,7 @@ class SV:
 def _fresh_check(formulas, timeout_ms, logic="QF_NRA"):
     s = z3.SolverFor(logic) if logic else z3.Solver()
     s.set("timeout", timeout_ms)
-    s.set("rlimit", timeout_ms * 1500)  # nlsat does not always honour the timeout
+    s.set("rlimit", timeout_ms * 6000)  # nlsat does not always honour the timeout
     for f in formulas:
         s.add(f)
     t = time.time()
